@@ -18,7 +18,8 @@ import os
 
 import vlib
 
-TRACE = "Trace_PrimitiveSet"
+TRACE = "Trace_PrimitiveSet"          # one event = one keyset through a real factory (independent events)
+TRACE_H = "Trace_PrimitiveSetHist"    # the same, inside rotation histories replayed through KeysetManager.tla (stateful)
 CLASSES = ["AEAD", "DAEAD", "MAC", "SIG", "HYBRID", "JWTMAC", "JWTSIG", "STREAM", "PRF"]
 
 
@@ -66,6 +67,8 @@ def report(ctx, mism, stage):
 
 
 def corrupt(ev, rng):
+    if ev["ev"] != "set":
+        return None
     ev = json.loads(json.dumps(ev))
     if "prf" in ev:
         ids = [e["id"] for e in ev["ks"]]
@@ -118,28 +121,29 @@ def tally(stdouts):
     return tot
 
 
-def validate(ctx, files, stage):
-    """Validate every per-process trace (events are independent); returns (mismatches, events, merged path)."""
+def validate(ctx, files, stage, module=TRACE, reset=None):
+    """Validate every per-process trace; returns (mismatches, events, merged path). Independent events are cut into
+    pieces of <= 40k events (keeps each TLC process's JSON small); histories are validated file by file (every file
+    starts with a reset event, and vlib cuts shards at reset events only)."""
     merged = os.path.join(ctx.scratch, stage.split(":")[0] + "-all.ndjson")
-    n = 0
+    pieces, n = [], 0
     with open(merged, "w") as out:
         for f in files:
-            for line in open(f):
-                if line.strip():
-                    out.write(line)
-                    n += 1
+            lines = [x for x in open(f).read().splitlines() if x.strip()]
+            step = len(lines) if reset else 40000
+            for a in range(0, len(lines), max(1, step)):
+                pieces.append((n + a, lines[a:a + step]))
+            out.write("".join(x + "\n" for x in lines))
+            n += len(lines)
     if n == 0:
         raise vlib.Infra("%s: the driver recorded nothing" % stage)
     mism = []
-    # pieces of at most ~60k events keep each TLC process's JSON in memory small
-    lines = open(merged).read().splitlines()
-    step = 60000
-    for a in range(0, len(lines), step):
+    for off, lines in pieces:
         part = merged + ".part"
-        open(part, "w").write("\n".join(lines[a:a + step]) + "\n")
-        mm, _ = ctx.validate_events(TRACE, part, shards=16, timeout=3600, heap="4g", stage=stage)
+        open(part, "w").write("\n".join(lines) + "\n")
+        mm, _ = ctx.validate_events(module, part, shards=16, timeout=3600, heap="4g", stage=stage, reset=reset)
         for m in mm:
-            m["index"] += a
+            m["index"] += off
         mism += mm
     ctx.stage(stage, events=n, mismatches=len(mism))
     return mism, n, merged
@@ -207,7 +211,7 @@ def run(ctx):
     small = [c for c in cases if len(c["ks"]) <= 2]
     big = [c for c in cases if len(c["ks"]) == 3]
     if not ctx.thorough:
-        big = ctx.rng.sample(big, 400)
+        big = ctx.rng.sample(big, 150)
     chosen = small + big
 
     def variant(c, how):
@@ -216,7 +220,7 @@ def run(ctx):
             e["impl"] = "legacyAdapter" if how == "all" or ctx.rng.randrange(2) else "full"
         return c
     # implementation variants: every key through the legacy adapter, and a random mix
-    var_src = chosen if not ctx.thorough else small + ctx.rng.sample(big, len(big) // 5)
+    var_src = ctx.rng.sample(chosen, len(chosen) // 4) if not ctx.thorough else small + ctx.rng.sample(big, len(big) // 5)
     plan_cases = list(chosen) + [variant(c, "all") for c in var_src] + [variant(c, "mix") for c in var_src]
     for k, c in enumerate(plan_cases):
         c["rot"] = (k + ctx.seed) % 6
@@ -225,7 +229,8 @@ def run(ctx):
     ctx.stage("R:plan", keysets_in_model=n_all, makers=n_makers, keysets_replayed=len(chosen), with_impl_variants=len(plan_cases))
     ctx.log("plan: %d keysets in the model, %d replayed (+%d implementation variants), %d input makers" %
             (n_all, len(chosen), len(plan_cases) - len(chosen), n_makers))
-    files, outs = run_driver(ctx, drv, [["-plan", plan, "-makers", makers_f, "-classes", c] for c in CLASSES], "plan")
+    colfrac = "1" if ctx.thorough else "0.25"   # quick: a seeded quarter of the collision instances
+    files, outs = run_driver(ctx, drv, [["-plan", plan, "-makers", makers_f, "-classes", c, "-colfrac", colfrac] for c in CLASSES], "plan")
     t = tally(outs)
     ctx.log("driver (plan):", t)
     ctx.stage("R:driver", **t)
@@ -235,14 +240,14 @@ def run(ctx):
     report(ctx, mism, "R")
     ctx.cov["traces_validated_against_impl"] += len(plan_cases)
     # ---------------------------------------------------------------- (T) random keysets + rotation histories
-    nh = 2000 if ctx.thorough else 120
+    nh = 1200 if ctx.thorough else 96
     procs = 12
     jobs = [["-random", str(nh // procs), "-steps", "30", "-stream", str(i)] for i in range(procs)]
     files, outs = run_driver(ctx, drv, jobs, "hist")
     t2 = tally(outs)
     ctx.log("driver (histories):", t2)
     ctx.stage("T:driver", histories=(nh // procs) * procs, **t2)
-    mism2, n2, merged2 = validate(ctx, files, "T:random keysets and rotation histories")
+    mism2, n2, merged2 = validate(ctx, files, "T:random keysets and rotation histories", module=TRACE_H, reset="reset")
     report(ctx, mism2, "T")
     ctx.cov["traces_validated_against_impl"] += (nh // procs) * procs
     ctx.cov["events"] = n1 + n2
@@ -254,7 +259,7 @@ def run(ctx):
         ctx.sample(e)
     if not mism and not mism2:
         ctx.negative_control(TRACE, merged1, corrupt, window=40)
-        ctx.negative_control(TRACE, merged2, corrupt, window=40, stage="NC:histories")
+        ctx.negative_control(TRACE_H, merged2, corrupt, reset="reset", stage="NC:histories")
 
 
 MANIFEST = dict(
